@@ -253,6 +253,84 @@ def overlapping_disconnect_probe(cancel_which, ack, gap):
     return simnet.run(go)
 
 
+def client_reconnect_during_disconnect_probe(ack_delay):
+    """APIClient level: a graceful client.disconnect() is waiting for the device's answer when the application (a reconnect
+    manager woken by an mDNS record, a reload) calls start_connection()/finish_connection() on the same client - accepted or
+    refused, that is not judged here; then the device answers; then the application disconnects the client once more. When
+    that last disconnect() has returned, everything this client ever opened is released: all transports and sockets closed,
+    no timer armed, nothing more written, nothing delivered. Returns the list of what is still alive."""
+    import asyncio
+    from vlib import simnet
+
+    async def go(loop):
+        from aioesphomeapi import api_pb2 as pb
+        net = simnet.Net(loop)
+        seen = []
+        alive = []
+        with net.patched():
+            cli, tr = await simnet.connected_client(loop, net)
+            cli.subscribe_states(lambda st: seen.append(st.key))
+            await simnet.drain(loop)
+            d1 = asyncio.ensure_future(cli.disconnect())
+            await simnet.drain(loop)
+            second = None
+            try:
+                await cli.start_connection()
+                f2 = asyncio.ensure_future(cli.finish_connection(login=False))
+                await simnet.drain(loop)
+                second = net.transports[-1]
+                second.feed(simnet.plain_msg(pb.HelloResponse(api_version_major=1, api_version_minor=10, name="dev")))
+                await simnet.drain(loop)
+                await f2
+                cli.subscribe_states(lambda st: seen.append(st.key))
+            except Exception:  # noqa: BLE001   (refused: "Already connected")
+                second = None
+            if ack_delay:
+                await simnet.advance(loop, by=ack_delay)
+            if not tr.closing:
+                tr.feed(simnet.plain_msg(pb.DisconnectResponse()))
+            await simnet.drain(loop)
+            try:
+                await d1
+            except Exception:  # noqa: BLE001
+                pass
+            # the application disconnects the client (again)
+            d2 = asyncio.ensure_future(cli.disconnect())
+            await simnet.drain(loop)
+            for t in net.transports:
+                if not t.closing:
+                    t.feed(simnet.plain_msg(pb.DisconnectResponse()))
+            await simnet.drain(loop)
+            await simnet.advance(loop, by=11.0)
+            if not d2.done():
+                alive.append("the last disconnect() is still pending")
+                d2.cancel()
+            del seen[:]
+            n_w = [len(t.writes) for t in net.transports]
+            for k, t in enumerate(net.transports):
+                if not t.closing:
+                    alive.append(f"transport {k} open")
+                    t.feed(simnet.plain_msg(pb.SensorStateResponse(key=5, state=1.0)))
+            for k, sk in enumerate(net.sockets):
+                if not sk.closed:
+                    alive.append(f"socket {k} open")
+            timers = [name for _, name in loop.armed_timers()]
+            if timers:
+                alive.append("timers " + ",".join(timers))
+            await simnet.advance(loop, by=61.0)
+            more = sum(len(t.writes) for t in net.transports) - sum(n_w)
+            if more:
+                alive.append(f"{more} more write(s)")
+            if seen:
+                alive.append("a state message was delivered to a subscriber")
+            for t in net.transports:
+                if not t.closing:
+                    t.lose(None)
+            await simnet.drain(loop)
+        return alive
+    return simnet.run(go)
+
+
 def run(rep, tier, seed):
     connfamily.run(rep, tier, seed, "C08", VFILE, RULE)
     for debug in (False, True):
@@ -277,6 +355,14 @@ def run(rep, tier, seed):
                 if alive or all(o == "pending" for o in outs):
                     rep.violation("C08/not-released", f"two overlapping disconnect() calls (second {gap} turn(s) later), {['neither', 'the first', 'the second'][cancel_which]} cancelled by its caller, "
                                   f"device {'acknowledges' if ack else 'stays silent'}: the calls ended {outs}, yet still alive: {alive or 'both calls pending'}", replay)
+    for ack_delay in (0, 2.0):
+        alive = client_reconnect_during_disconnect_probe(ack_delay)
+        replay = {"kind": "client-reconnect-during-disconnect", "ack_delay": ack_delay}
+        rep.case(("client-reconnect-during-disconnect", ack_delay), True, sample={"probe": replay, "alive": alive})
+        rep.bump("probe:client-reconnect-during-disconnect")
+        if alive:
+            rep.violation("C08/not-released", f"client.disconnect() waiting for the device, start/finish_connection() called meanwhile, device answers after {ack_delay} s, then client.disconnect() "
+                          f"once more: after it returned, still alive: {alive}", replay)
     for noise, stage in ((True, "hello"), (True, "handshake"), (False, "hello")):
         for exc_kind in ("reset", "timedout", "pipe", "none"):
             out, closed, timers = handshake_loss_probe(noise, stage, exc_kind)
@@ -320,6 +406,12 @@ def replay(path):
         common.setup_impl_path()
         print(handshake_loss_probe(d["noise"], d["stage"], d["exc"]))
         return 0
+    if d.get("kind") == "client-reconnect-during-disconnect":
+        from vlib import common
+        common.setup_impl_path()
+        alive = client_reconnect_during_disconnect_probe(d["ack_delay"])
+        print(alive)
+        return 1 if alive else 0
     if d.get("kind") == "overlapping-disconnect":
         from vlib import common
         common.setup_impl_path()
